@@ -2,7 +2,7 @@
 from . import gen
 
 # few names, sharing prefixes, with characters that sort below '/' ('-', '.', '+')
-UNI_NAMES = ["a", "a-b", "a.b", "a+b", "ab", "b", "oph", "ophelia", "x_rig", "B", "rig"]
+UNI_NAMES = ["a", "a-b", "a.b", "a+b", "ab", "b", "oph", "ophelia", "x_rig", "B", "rig", "cafe\u0301", "\U0001F600hero", "Ophelia", "\u212bngstrom"]
 
 
 def leaf_templates(model, vocab):
